@@ -4,6 +4,7 @@ import Mathlib.Tactic.FieldSimp
 import Mathlib.Tactic.Ring
 import Mathlib.Tactic.Positivity
 import Mathlib.Algebra.Order.Field.Rat
+import Mathlib.Data.List.Basic
 
 /-!
 # C10 — EMA is the normalised exponentially weighted mean, per group
@@ -148,6 +149,110 @@ theorem grouped_eq_single_group (β : Rat) (rows : List (Int × Option Rat)) (i 
     (emaGrouped β rows)[i]? = some (some (emaOut (run β (groupVals (rows.take i) r.1)) r.2)) := by
   unfold emaGrouped run
   exact loopGo_at _ _ _ rows i r hi hg
+
+/-! ### time-weighted variant: weights `decay (t_i − t_j)` for any multiplicative decay -/
+
+/-- weighted sums relative to a reference time `T` -/
+def sAt (decay : Int → Rat) (T : Int) : List (Int × Option Rat) → Rat
+  | [] => 0
+  | tx :: rest => (match tx.2 with | none => 0 | some v => v * decay (T - tx.1)) + sAt decay T rest
+
+def wAt (decay : Int → Rat) (T : Int) : List (Int × Option Rat) → Rat
+  | [] => 0
+  | tx :: rest => (match tx.2 with | none => 0 | some _ => decay (T - tx.1)) + wAt decay T rest
+
+def runT (decay : Int → Rat) (h : List (Int × Option Rat)) : ESt := h.foldl (emaStepTimed decay) eInit
+
+theorem sAt_append (decay : Int → Rat) (T : Int) (a b : List (Int × Option Rat)) :
+    sAt decay T (a ++ b) = sAt decay T a + sAt decay T b := by
+  induction a with
+  | nil => simp [sAt]
+  | cons x xs ih => simp [sAt, ih]; ring
+
+theorem wAt_append (decay : Int → Rat) (T : Int) (a b : List (Int × Option Rat)) :
+    wAt decay T (a ++ b) = wAt decay T a + wAt decay T b := by
+  induction a with
+  | nil => simp [wAt]
+  | cons x xs ih => simp [wAt, ih]; ring
+
+/-- moving the reference time multiplies every weight by the decay over the shift -/
+theorem sAt_shift (decay : Int → Rat) (hmul : ∀ a b, decay (a + b) = decay a * decay b) (T T' : Int)
+    (h : List (Int × Option Rat)) : sAt decay T' h = decay (T' - T) * sAt decay T h := by
+  induction h with
+  | nil => simp [sAt]
+  | cons x xs ih =>
+    simp only [sAt, ih]
+    cases hx : x.2 with
+    | none => simp
+    | some v =>
+      have : T' - x.1 = (T' - T) + (T - x.1) := by omega
+      simp only [this, hmul]; ring
+
+theorem wAt_shift (decay : Int → Rat) (hmul : ∀ a b, decay (a + b) = decay a * decay b) (T T' : Int)
+    (h : List (Int × Option Rat)) : wAt decay T' h = decay (T' - T) * wAt decay T h := by
+  induction h with
+  | nil => simp [wAt]
+  | cons x xs ih =>
+    simp only [wAt, ih]
+    cases hx : x.2 with
+    | none => simp
+    | some v =>
+      have : T' - x.1 = (T' - T) + (T - x.1) := by omega
+      simp only [this, hmul]; ring
+
+/-- invariant of the time-weighted state: numerator / denominator are the weighted sums relative
+to the time of the group's previous row -/
+theorem runT_state (decay : Int → Rat) (hmul : ∀ a b, decay (a + b) = decay a * decay b) (h0 : decay 0 = 1)
+    (h : List (Int × Option Rat)) :
+    match h.getLast? with
+    | none => runT decay h = eInit
+    | some tx => (runT decay h).r = sAt decay tx.1 h ∧ (runT decay h).w = wAt decay tx.1 h ∧
+                 (runT decay h).lastT = some tx.1 := by
+  induction h using List.reverseRecOn with
+  | nil => simp [runT]
+  | append_singleton xs x ih =>
+    simp only [List.getLast?_append, List.getLast?_singleton, Option.some_or]
+    have hrun : runT decay (xs ++ [x]) = emaStepTimed decay (runT decay xs) x := by
+      simp [runT, List.foldl_append]
+    rw [hrun, sAt_append, wAt_append]
+    cases hl : xs.getLast? with
+    | none =>
+      have hxs : xs = [] := by simpa using hl
+      subst hxs
+      simp only [hl] at ih
+      have hr : runT decay [] = eInit := rfl
+      rw [hr]
+      cases hx : x.2 <;> simp [emaStepTimed, decayed, eInit, sAt, wAt, hx, h0]
+    | some y =>
+      simp only [hl] at ih
+      obtain ⟨hr, hw, ht⟩ := ih
+      rw [sAt_shift decay hmul y.1 x.1 xs, wAt_shift decay hmul y.1 x.1 xs]
+      generalize runT decay xs = s at hr hw ht
+      cases hx : x.2 with
+      | none => simp [emaStepTimed, decayed, ht, hr, hw, sAt, wAt, hx]; constructor <;> ring
+      | some v => simp [emaStepTimed, decayed, ht, hr, hw, sAt, wAt, hx, h0]; constructor <;> ring
+
+/-- **closed form, time-weighted**: at a valid row the output is the weighted mean of the valid
+observations of the group so far with weight `decay (elapsed time)` -/
+theorem ema_timed_closed_form (decay : Int → Rat) (hmul : ∀ a b, decay (a + b) = decay a * decay b)
+    (h0 : decay 0 = 1) (h : List (Int × Option Rat)) (t : Int) (v : Rat) :
+    emaOutTimed decay (runT decay h) (t, some v)
+      = some (sAt decay t (h ++ [(t, some v)]) / wAt decay t (h ++ [(t, some v)])) := by
+  have inv := runT_state decay hmul h0 h
+  rw [sAt_append, wAt_append]
+  cases hl : h.getLast? with
+  | none =>
+    have hxs : h = [] := by simpa using hl
+    subst hxs
+    simp [emaOutTimed, emaOut, decayed, runT, eInit, sAt, wAt, h0]
+  | some y =>
+    simp only [hl] at inv
+    obtain ⟨hr, hw, ht⟩ := inv
+    rw [sAt_shift decay hmul y.1 t h, wAt_shift decay hmul y.1 t h]
+    generalize runT decay h = s at hr hw ht
+    simp only [emaOutTimed, emaOut, decayed, ht, hr, hw, sAt, wAt, Int.sub_self, h0]
+    congr 1
+    ring_nf
 
 /-- source fact: the grouped kernels skip null keys (guard present in the current source) -/
 theorem guards_present :
